@@ -1480,6 +1480,30 @@ def gen_toml_doc(rng, allow_local=False):
     return "\n".join(lines) + "\n"
 
 
+TOML_TREE = ["a", "a.b", "a.b.c", "a.d", "e", "e.f", "g"]
+
+
+def gen_toml_headers_doc(rng):
+    """table headers in every order: a parent after its child, empty tables, super-tables re-opened by a sub-table header,
+    array tables interleaved; each table defined once (TOML), keys of a table never collide with its sub-tables"""
+    paths = rng.sample(TOML_TREE, rng.randrange(2, len(TOML_TREE) + 1))
+    rng.shuffle(paths)
+    arrays = rng.sample(["q", "w"], rng.randrange(0, 3))
+    items = [("t", p) for p in paths]
+    for q in arrays:
+        for _ in range(rng.randrange(1, 4)):
+            items.insert(rng.randrange(0, len(items) + 1), ("a", q))
+    lines = []
+    if rng.random() < 0.4:
+        lines.append("top = %s" % gen_toml_scalar(rng))
+    for kind, p in items:
+        lines.append("[%s]" % p if kind == "t" else "[[%s]]" % p)
+        if rng.random() < 0.55:
+            for k in rng.sample(["x", "y", "z1"], rng.randrange(1, 3)):
+                lines.append("%s = %s" % (k, gen_toml_value(rng, 1)))
+    return "\n".join(lines) + "\n"
+
+
 def toml_same(got, want):
     """yq's decoded tree (python value via from_node) against tomllib's value"""
     if isinstance(want, dict):
@@ -1541,8 +1565,8 @@ def toml_defect(t, want, got, r):
 @section
 def sec_toml(cx):
     chk, rng = cx.chk, cx.rng
-    texts = [gen_toml_doc(rng) for _ in range(cx.n(400, 8000))]
-    texts += ['a = 1\nb = "x"\n[t]\nc = true\n[[arr]]\nn = 1\n[[arr]]\nn = 2\n', 'p = { x = 1, y = { z = "w" } }\nq = [1, 2.5, "s", [true]]\n', "a.b.c = 1\na.b.d = 2\n",
+    texts = [gen_toml_doc(rng) for _ in range(cx.n(400, 8000))] + [gen_toml_headers_doc(rng) for _ in range(cx.n(150, 3000))]
+    texts += ["[a.b]\nx = 1\n[a]\n", "[a.b]\nx = 1\n[a]\n[c]\n", "[a.b.c]\n[a.b]\n[a]\n", "[[q]]\nn = 1\n[t]\n[[q]]\n[t.u]\ny = 2\n[[q]]\nn = 3\n", 'a = 1\nb = "x"\n[t]\nc = true\n[[arr]]\nn = 1\n[[arr]]\nn = 2\n', 'p = { x = 1, y = { z = "w" } }\nq = [1, 2.5, "s", [true]]\n', "a.b.c = 1\na.b.d = 2\n",
               '[a]\nx = 1\n[a.b]\ny = 2\n[c]\n', '[[a]]\nx = 1\n[a.b]\ny = 2\n', '[[a]]\nn = 1\n[[a.b]]\nx = 1\n[[a.b]]\nx = 2\n[[a]]\nn = 2\n', '[[a]]\n[[a]]\nx = 1\n',
               'a = 0b1101\n', 'x = {a.b = 1, a.c = 2, d = {e.f = "s", e.g = [1]}}\n', '[a]\nb.c = 1\nb.d = 2\n', '[a.b.c]\nx = 1\n[a]\ny = 2\n', 'a = [ {x = 1}, {x = 2} ]\n', "s = " + SQ3 + "\nl1\nl2" + SQ3 + "\n"]
     local = [gen_toml_doc(rng, True) for _ in range(cx.n(60, 600))] + ["d = 1979-05-27\n", "t = 07:32:00\n", "dt = 1979-05-27T07:32:00\n"]
@@ -1626,8 +1650,8 @@ def ser_tdump(d):
 @section
 def sec_toml_model(cx):
     chk, rng = cx.chk, cx.rng
-    texts = [gen_toml_doc(rng, rng.random() < 0.1) for _ in range(cx.n(300, 6000))]
-    texts += ['a = 1\nb = "x"\n[t]\nc = true\n[[arr]]\nn = 1\n[[arr]]\nn = 2\n', "[t]\n[u]\nx = 1\n", "[[a]]\n[[a]]\nx = 1\n", "[[a]]\nx = 1\n[[a]]\n", "[[a]]\nx = 1\n[a.b]\ny = 2\n",
+    texts = [gen_toml_doc(rng, rng.random() < 0.1) for _ in range(cx.n(300, 6000))] + [gen_toml_headers_doc(rng) for _ in range(cx.n(150, 3000))]
+    texts += ["[a.b]\nx = 1\n[a]\n", "[a.b]\nx = 1\n[a]\n[c]\n", "[a.b.c]\n[a.b]\n[a]\n", "[[q]]\nn = 1\n[t]\n[[q]]\n[t.u]\ny = 2\n[[q]]\nn = 3\n", 'a = 1\nb = "x"\n[t]\nc = true\n[[arr]]\nn = 1\n[[arr]]\nn = 2\n', "[t]\n[u]\nx = 1\n", "[[a]]\n[[a]]\nx = 1\n", "[[a]]\nx = 1\n[[a]]\n", "[[a]]\nx = 1\n[a.b]\ny = 2\n",
               "[a.b.c]\nx = 1\n[a]\ny = 2\n", "x = {a.b = 1, a.c = 2}\n", "a = 0b1_01\n", "[a]\nb.c = 1\nb.d = 2\n[a.e]\nf = [1, [2, {g = 3}]]\n", "", "# only a comment\n", "[t]\n",
               "a.b = 1\n[a]\nc = 2\n", "d = 1979-05-27\n", "[x.y]\n[x]\nz = 1\n[[x.w]]\nq = 1\n[[x.w]]\n"]
     ereq = vlib.yqh_parallel([{"op": "c14_tomlexpr", "text_b64": vlib.b64e(t)} for t in texts])
